@@ -152,6 +152,23 @@ func GenConfig(seed uint64, opt core.Options) *Config {
 	if rng.Chance(1, 4) {
 		c.Knobs["EJECTION_BALANCE"] = 31_000_000_000
 	}
+	// inactivity scores beyond one byte (and beyond two) within a few epochs of a leak
+	pick("INACTIVITY_SCORE_BIAS", 4, 4, 300, 70000)
+	pick("INACTIVITY_SCORE_RECOVERY_RATE", 16, 1, 300)
+	// reward and penalty arithmetic: every per-fork variant gets its own value, so that a constant of
+	// the wrong fork cannot pass unnoticed
+	pick("BASE_REWARD_FACTOR", 64, 64, 8, 1000)
+	pick("PROPOSER_REWARD_QUOTIENT", 8, 3)
+	pick("WHISTLEBLOWER_REWARD_QUOTIENT", 512, 7, 4096)
+	pick("MIN_SLASHING_PENALTY_QUOTIENT", 128, 7)
+	pick("MIN_SLASHING_PENALTY_QUOTIENT_ALTAIR", 64, 11)
+	pick("MIN_SLASHING_PENALTY_QUOTIENT_BELLATRIX", 32, 5)
+	pick("PROPORTIONAL_SLASHING_MULTIPLIER", 1, 4)
+	pick("PROPORTIONAL_SLASHING_MULTIPLIER_ALTAIR", 2, 5)
+	pick("PROPORTIONAL_SLASHING_MULTIPLIER_BELLATRIX", 3, 7)
+	pick("HYSTERESIS_QUOTIENT", 4, 8)
+	pick("HYSTERESIS_DOWNWARD_MULTIPLIER", 1, 2)
+	pick("HYSTERESIS_UPWARD_MULTIPLIER", 5, 7)
 	switch opt.Params["director"] {
 	case "leak":
 		// > 1/3 of the stake is offline for the whole run: inactivity leak, drained balances, ejections
@@ -268,12 +285,41 @@ func (c *Config) BuildSpec() *common.Spec {
 			s.MAX_WITHDRAWALS_PER_PAYLOAD = view.Uint64View(v)
 		case "MAX_VALIDATORS_PER_WITHDRAWALS_SWEEP":
 			s.MAX_VALIDATORS_PER_WITHDRAWALS_SWEEP = view.Uint64View(v)
+		case "BASE_REWARD_FACTOR":
+			s.BASE_REWARD_FACTOR = view.Uint64View(v)
+		case "PROPOSER_REWARD_QUOTIENT":
+			s.PROPOSER_REWARD_QUOTIENT = view.Uint64View(v)
+		case "WHISTLEBLOWER_REWARD_QUOTIENT":
+			s.WHISTLEBLOWER_REWARD_QUOTIENT = view.Uint64View(v)
+		case "MIN_SLASHING_PENALTY_QUOTIENT":
+			s.MIN_SLASHING_PENALTY_QUOTIENT = view.Uint64View(v)
+		case "MIN_SLASHING_PENALTY_QUOTIENT_ALTAIR":
+			s.MIN_SLASHING_PENALTY_QUOTIENT_ALTAIR = view.Uint64View(v)
+		case "MIN_SLASHING_PENALTY_QUOTIENT_BELLATRIX":
+			s.MIN_SLASHING_PENALTY_QUOTIENT_BELLATRIX = view.Uint64View(v)
+		case "PROPORTIONAL_SLASHING_MULTIPLIER":
+			s.PROPORTIONAL_SLASHING_MULTIPLIER = view.Uint64View(v)
+		case "PROPORTIONAL_SLASHING_MULTIPLIER_ALTAIR":
+			s.PROPORTIONAL_SLASHING_MULTIPLIER_ALTAIR = view.Uint64View(v)
+		case "PROPORTIONAL_SLASHING_MULTIPLIER_BELLATRIX":
+			s.PROPORTIONAL_SLASHING_MULTIPLIER_BELLATRIX = view.Uint64View(v)
+		case "HYSTERESIS_QUOTIENT":
+			s.HYSTERESIS_QUOTIENT = view.Uint64View(v)
+		case "HYSTERESIS_DOWNWARD_MULTIPLIER":
+			s.HYSTERESIS_DOWNWARD_MULTIPLIER = view.Uint64View(v)
+		case "HYSTERESIS_UPWARD_MULTIPLIER":
+			s.HYSTERESIS_UPWARD_MULTIPLIER = view.Uint64View(v)
+		case "INACTIVITY_SCORE_BIAS":
+			s.INACTIVITY_SCORE_BIAS = view.Uint64View(v)
+		case "INACTIVITY_SCORE_RECOVERY_RATE":
+			s.INACTIVITY_SCORE_RECOVERY_RATE = view.Uint64View(v)
 		case "MIN_EPOCHS_TO_INACTIVITY_PENALTY":
 			s.MIN_EPOCHS_TO_INACTIVITY_PENALTY = common.Epoch(v)
 		case "INACTIVITY_PENALTY_QUOTIENT":
+			// one value per fork, like the published presets
 			s.INACTIVITY_PENALTY_QUOTIENT = view.Uint64View(v)
-			s.INACTIVITY_PENALTY_QUOTIENT_ALTAIR = view.Uint64View(v)
-			s.INACTIVITY_PENALTY_QUOTIENT_BELLATRIX = view.Uint64View(v)
+			s.INACTIVITY_PENALTY_QUOTIENT_ALTAIR = view.Uint64View(v + v/2)
+			s.INACTIVITY_PENALTY_QUOTIENT_BELLATRIX = view.Uint64View(v/2 + 1)
 		case "MIN_SEED_LOOKAHEAD":
 			s.MIN_SEED_LOOKAHEAD = common.Epoch(v)
 		case "MAX_SEED_LOOKAHEAD":
